@@ -732,19 +732,13 @@ def register(name, sp):
     SPANS[name] = sp
 
 
-# ---- actix-utils/src/counter.rs (C17, C18) -------------------------------------------------------
-_UC = dict(
-    reads={"self.count.get()": "count", "self.capacity": "capacity"},
-    writes={"self.count.set(_)": ("count", "arg0"), "self.task.wake()": ("woke", "true"),
-            "self.task.register(_)": ("registered", "true")},
-    bools=("woke", "registered"),
-)
-register("utils_counter_inc", span_fn("actix-utils/src/counter.rs", "inc", "CounterInner", "ucInc",
-         "(count capacity : Nat)", "Nat", dict(_UC, state=["count"], result="state")))
-register("utils_counter_dec", span_fn("actix-utils/src/counter.rs", "dec", "CounterInner", "ucDec",
-         "(count capacity : Nat) (woke : Bool := false)", "Nat × Bool", dict(_UC, state=["count", "woke"], result="state")))
-register("utils_counter_available", span_fn("actix-utils/src/counter.rs", "available", "CounterInner", "ucAvailable",
-         "(count capacity : Nat) (registered : Bool := false)", "Bool × Bool", dict(_UC, state=["registered"], result="both")))
+def load_span_files():
+    """every tools/spans/*.py registers its spans (one file per crate group, to keep edits apart)"""
+    import glob
+    d = os.path.join(os.path.dirname(os.path.abspath(__file__)), "spans")
+    g = {"register": register, "span_fn": span_fn, "span_const": span_const, "span_expr": span_expr}
+    for f in sorted(glob.glob(os.path.join(d, "*.py"))):
+        exec(compile(open(f).read(), f, "exec"), dict(g))
 
 
 def translate_span(repo, sp):
@@ -796,6 +790,7 @@ def main():
     ap.add_argument("--out", required=True)
     ap.add_argument("--json", action="store_true")
     a = ap.parse_args()
+    load_span_files()
     status, chunks = {}, []
     for name, sp in SPANS.items():
         try:
